@@ -84,6 +84,113 @@ CHECKS = {
         note=TB + '; content/metadata round trips and compression externals are a bounded component',
         technique='contract-based deductive verification with inductive loop invariants over abstract sequences; z3/cvc5',
         design_ref='6 (C20)'),
+    'C02': dict(
+        category='proof',
+        text='The signing glue is verified from the real source: PGPKey.sign picks the signature type (binary / canonical text for cleartext / '
+             'timestamp), passes the signing component algorithm and key id as issuer; PGPKey._sign adds the issuer fingerprint (hashed) before '
+             'hashing, signs exactly hashdata(subject), stores the left 16 bits of the digest of that data, installs the signer output, then '
+             'updates the header length; hashdata == RFC 4880 5.2.4 for all types (shared with C01); per-algorithm verify glue. The subpacket '
+             'serialisers, every signing option and both directions against the independent RFC implementation are a bounded component.',
+        note=TB,
+        technique='contract-based deductive verification of the glue; bounded differential component against an independent RFC 4880 implementation',
+        design_ref='6 (C02)'),
+    'C03': dict(
+        category='proof',
+        text='Deductive: PKESK plaintext m = alg || key || 16-bit sum (RSA: PKCS#1 v1.5 under the recipient key; ECDH: to the recipient packet), '
+             'SKESK encrypts alg || session key under the S2K key with a fresh salt, SEIPD plaintext = prefix || repeat || data || MDC(SHA-1(...D3 14)), '
+             'symenc: zero IV of block size when none given, insecure/unsupported ciphers refused, CFB object keyed as given; PGPKey.encrypt names its own '
+             'key id / algorithm and encrypts the whole message bytes; decrypt selection. Inverse-pair behaviour of the cryptographic externals and the '
+             'round trip against an independent RFC 4880/6637 implementation are a bounded component.',
+        note=TB + '; ECDH (RFC 6637) session-key wrapping is bounded only',
+        technique='contract-based deductive verification of layouts and glue with uninterpreted cryptographic externals; bounded differential component',
+        design_ref='6 (C03)'),
+    'C04': dict(
+        category='proof',
+        text='Every accepting path is proved to have gone through the checks: SEIPD.decrypt returns only if the last 22 octets are D3 14 || SHA-1(rest) and '
+             'the prefix repeats its last two octets, else PGPDecryptionError; PKESK.decrypt_sk returns only if the 16-bit checksum matches; keyblob '
+             'decryption only if the SHA-1 trailer / checksum matches; PGPMessage.decrypt returns only a message parsed from octets that passed those checks '
+             'and maps every failure to PGPDecryptionError; PGPKey.decrypt refuses non-recipients, picks the session-key packet naming its id and algorithm, '
+             'delegates to the addressed subkey. "No modification yields a different plaintext" holds modulo the named hypothesis on SHA-1/CFB; the '
+             'bounded mutation component found two genuine gaps (D27, D28) recorded as known findings.',
+        note=TB,
+        technique='contract-based deductive verification of the acceptance paths; bounded mutation component (bit flips, truncations, splices, downgrade)',
+        design_ref='6 (C04)'),
+    'C07': dict(
+        category='proof',
+        text='PrivKeyV4.pubkey is executed for RSA/DSA/ElGamal/ECDSA/EdDSA/ECDH (primary and subkey): result is the public packet class with the public '
+             'material class, exactly the public fields (+ curve, KDF) copied, no other field present and no secret symbol flowing into it (non-interference '
+             'on the symbolic heap); protected/unprotected secret material serialisation shape (C18); KeyAction.check_attributes refuses exactly when a '
+             'condition (is_public / is_unlocked) is not met; export filter of PGPKey.__bytearray__. Whole-key assembly and API refusals: bounded component.',
+        note=TB,
+        technique='contract-based deductive verification with syntactic non-interference on the symbolic heap; bounded component over key shapes',
+        design_ref='6 (C07)'),
+    'C08': dict(
+        category='proof',
+        text='Proved: packet header and length codecs in both directions, subpacket header, MPI, hashed-area verbatim, public-key body, one-pass packet '
+             'layout, boolean subpacket parse/value, S2K count. The dispatcher (metaclass registry), EC material, user attributes and the breadth of '
+             'packet classes (own output byte-exact; foreign input normalises once) are a bounded component over fixtures and generated packets.',
+        note=TB + '; this property is only partly within reach: most packet classes are covered by the bounded component, not by obligations',
+        technique='contract-based deductive verification of the codec core; bounded component for the packet-class breadth',
+        design_ref='6 (C08)'),
+    'C10': dict(
+        category='proof',
+        text='CRC-24: the real loop body is translated to 64-bit bit-vectors and proved to keep the state below 2^24, never to exceed 2^40 (so the model '
+             'equals unbounded Python ints) and to be the GF(2) remainder of state*x^8 + octet*x^24 modulo 0x1864CFB; initial value and 24-bit result; the '
+             'armor writer layout (label, header lines, payload lines of at most 64 characters concatenating to the base64 text, =CRC over the binary '
+             'export, matching END line) for payloads of one and two lines. The reader (regular expression) is a bounded component.',
+        note=TB + '; armor writer proved for 1-2 payload lines (symbolic content), reader bounded',
+        technique='contract-based deductive verification (bit-vector VCs from the AST of the crc24 loop; sequence VCs for the writer); bounded reader component',
+        design_ref='6 (C10)'),
+    'C11': dict(
+        category='exploration',
+        text='Bounded stand-in: every text over the alphabet {-, space, tab, F, a, LF, CR} up to length 6 (7 thorough) plus an adversarial list goes '
+             'through the real dash-escape / write / read / hash path and is compared with RFC 4880 7.1 spec functions and an independent verifier, in '
+             'both directions. Two deductive lemmas only (type 0x01 for cleartext; one CR LF substitution + RFC trailer in hashdata).',
+        note='regular expressions are outside the verifier; nothing is proved beyond the two lemmas; three genuine defects are known findings (D10, D11, D22)',
+        technique='bounded stand-in for contract-based verification: runtime contracts over an exhaustively enumerated text space; two deductive lemmas',
+        design_ref='6 (C11)'),
+    'C13': dict(
+        category='proof',
+        text='Over a ghost randomness stream (every os.urandom call is a fresh symbol): gen_key / gen_iv are one draw of key size / block size; '
+             'PGPKey.encrypt draws the session key exactly when none is supplied and uses it for both the session-key packet and the container; '
+             'SEIPD.encrypt draws a fresh prefix of block size; SKESK.encrypt_sk and encrypt_keyblob draw fresh salt (8) and IV. Distinctness across '
+             'operations, ECDH ephemerals and "never in the clear" are a bounded component interposing os.urandom.',
+        note=TB + '; assumes os.urandom yields independent uniform values',
+        technique='contract-based deductive verification with ghost state for randomness; bounded interposition component',
+        design_ref='6 (C13)'),
+    'C14': dict(
+        category='proof',
+        text='PGPKey.__bytearray__ (shape bounded: 2 key signatures, 2 user ids, 2 subkeys; all flags and octets symbolic) exports key, then exactly '
+             'the non-embedded exportable signatures in order, each user id followed by its exportable signatures, then subkeys; exportable defaults to '
+             'true and follows the subpacket; Boolean subpacket parse; SorteDeque.insort keeps the multiset, order of old elements, sortedness and is '
+             'stable (0..3 elements, symbolic keys). Import (groupby pipeline), concatenated keys, trust packets, copy: bounded component.',
+        note=TB,
+        technique='contract-based deductive verification (bounded shapes, symbolic contents); bounded import/export component with an independent splitter',
+        design_ref='6 (C14)'),
+    'C15': dict(
+        category='exploration',
+        text='Bounded stand-in: every operation sequence up to length 3 (4 thorough) over 15 key-management operations plus seeded walks, checking the '
+             'runtime invariant well_formed(key) after each step with PGPy and the independent verifier. Deductive pointwise clauses: PGPUID.selfsig is the '
+             'last self-issued signature in (stable, sorted) storage order; subkey flags from the most recent binding; unlock frame.',
+        note='whole-history property with cryptography in the loop: decided only over the enumerated histories',
+        technique='bounded stand-in for contract-based verification (runtime invariant over enumerated histories); deductive pointwise clauses',
+        design_ref='6 (C15)'),
+    'C16': dict(
+        category='proof',
+        text='KeyAction.usage (context manager) yields the first component, in the order primary then subkeys, whose flags meet the required set, or '
+             'refuses with PGPError when none does and enforcement is on; capability is judged for the requested identity; check_attributes refuses '
+             'exactly when a condition fails; _get_key_flags: subkey flags of the most recent binding signature, primary Certify + identity self-signature; '
+             'verify delegates only to the named subkey; sign/encrypt name the component that acts (C02/C03 scenarios). Flag-assignment product: bounded component.',
+        note=TB + '; component list unrolled for primary + 2 subkeys',
+        technique='contract-based deductive verification with symbolic flag sets; bounded enumeration of flag assignments',
+        design_ref='6 (C16)'),
+    'C19': dict(
+        category='exploration',
+        text='Bounded stand-in only: the class invariant of the keyring index is checked after every step of every load/unload history of length <= 5 '
+             '(6 thorough) over a universe of five keys (shared names, public+private halves, subkeys), plus seeded walks.',
+        note='the layered alias index needs quantified array-of-map invariants that the VC generator does not offer; nothing is proved',
+        technique='bounded stand-in for contract-based verification: runtime class invariant over exhaustively enumerated histories',
+        design_ref='6 (C19)'),
 }
 
 PENDING_REASON = 'check under construction in this session: no contract-based check is registered yet (see DESIGN.md section 6 for the plan)'
